@@ -20,14 +20,14 @@ Definition mkO (pto : Z) (snr : option Z) (tl : option (list pS)) (cont : bool) 
 Definition mkP (nr start : Z) (ases : list asOut) : period := {| pd_nr := nr; pd_start := start; pd_as := ases |}.
 
 Inductive c06case :=
-| CLive (id : Z) (widen : bool) (pph segDurMS : Z) (mode : mpdType) (cont : bool) (startS snr now tsbdMS : Z) (ases : list asIn)
+| CLive (id : Z) (widen : bool) (pph segDurMS : Z) (mode : mpdType) (cont : bool) (startS snr now : Z) (stopS : option Z) (tsbdMS : Z) (ases : list asIn)
         (o_status : Z) (o_periods : list period) (o_publish : option Z)
 | CSplit (id : Z) (widen : bool) (pph segDurMS : Z) (mode : mpdType) (cont : bool) (astMS snr startTimeMS now : Z) (ases : list asIn)
          (o_status : Z) (o_periods : list period)
 | CReduce (id : Z) (es : list pS) (startNr : option Z) (tsc ps pe : Z) (o_S : list pS) (o_nr : Z).
 
 Definition c_id (c : c06case) : Z :=
-  match c with CLive id _ _ _ _ _ _ _ _ _ _ _ _ _ => id | CSplit id _ _ _ _ _ _ _ _ _ _ _ _ => id | CReduce id _ _ _ _ _ _ _ => id end.
+  match c with CLive id _ _ _ _ _ _ _ _ _ _ _ _ _ _ => id | CSplit id _ _ _ _ _ _ _ _ _ _ _ _ => id | CReduce id _ _ _ _ _ _ _ => id end.
 
 Definition optZ_eqb (a b : option Z) : bool :=
   match a, b with Some x, Some y => x =? y | None, None => true | _, _ => false end.
@@ -53,8 +53,8 @@ Definition statusOf {A} (r : res A) : Z :=
 
 Definition case_ok (c : c06case) : bool :=
   match c with
-  | CLive _ w pph seg mode cont startS snr now tsbdMS ases st ops opub =>
-    let r := livePeriods w 1 {| startS := startS; startNr := snr; tsbdS := 0; ato := Some 0 |} now tsbdMS
+  | CLive _ w pph seg mode cont startS snr now stopS tsbdMS ases st ops opub =>
+    let r := livePeriodsStop w 1 {| startS := startS; startNr := snr; tsbdS := 0; ato := Some 0 |} now stopS tsbdMS
                          pph seg mode cont ases in
     (statusOf r =? st) &&
     match r with
@@ -80,8 +80,8 @@ Inductive c06view :=
 
 Definition model_view (c : c06case) : c06view :=
   match c with
-  | CLive _ w pph seg mode cont startS snr now tsbdMS ases _ _ _ =>
-    let r := livePeriods w 1 {| startS := startS; startNr := snr; tsbdS := 0; ato := Some 0 |} now tsbdMS
+  | CLive _ w pph seg mode cont startS snr now stopS tsbdMS ases _ _ _ =>
+    let r := livePeriodsStop w 1 {| startS := startS; startNr := snr; tsbdS := 0; ato := Some 0 |} now stopS tsbdMS
                          pph seg mode cont ases in
     match r with Ok (ps, pub) => VPeriods 200 ps pub | _ => VPeriods (statusOf r) [] None end
   | CSplit _ w pph seg mode cont astMS snr stMS now ases _ _ =>
